@@ -205,6 +205,8 @@ func (c *cluster) handleChanges(key string, kvs []KV) {
 				})
 			}
 		}
+		// 以最新快照作为下一次比对的基准
+		c.values[key] = m
 	}
 	c.lock.Unlock()
 
